@@ -16,6 +16,34 @@ import EasyMl.Model.MatrixResize
 
 namespace EasyMl
 
+/-! ### the set semantics of slices -/
+
+namespace Slice
+
+/-- The set of indexes a slice denotes: predicate logic over `All`, `None`, a point, a half-open
+    interval (empty when `stop ≤ start`, e.g. a reversed range). -/
+def Mem : Slice → Nat → Prop
+  | .all, _ => True
+  | .none, _ => False
+  | .single i, k => k = i
+  | .range start stop, k => start ≤ k ∧ k < stop
+  | .not s, k => ¬ Mem s k
+  | .and a b, k => Mem a k ∧ Mem b k
+  | .or a b, k => Mem a k ∨ Mem b k
+
+/-- The members below `n`, computed by set operations on sorted lists (never calling `accepts`):
+    the executable set semantics the driver compares `accepts` with, point by point. -/
+def members (n : Nat) : Slice → List Nat
+  | .all => List.range n
+  | .none => []
+  | .single i => if i < n then [i] else []
+  | .range start stop => List.range' start (min stop n - start)
+  | .not s => (List.range n).filter fun k => !(members n s).contains k
+  | .and a b => (members n a).filter fun k => (members n b).contains k
+  | .or a b => (List.range n).filter fun k => (members n a).contains k || (members n b).contains k
+
+end Slice
+
 /-- the list-of-rows state -/
 abbrev Rows (α : Type) := List (List α)
 
@@ -181,6 +209,29 @@ def columnAt (rs : Rows α) (c : Nat) : Outcome (List α) :=
 /-- `diagonal_iter()`: the cells `(i, i)` -/
 def diagonal (rs : Rows α) : List α :=
   (List.range (min (nrows rs) (ncols rs))).filterMap fun i => cell rs i i
+
+/-! ### a supply of values shared by a sequence of insertions -/
+
+/-- the insertion operation of one step -/
+def sharedOp (isRow : Bool) (position : Nat) (values : List α) : Op α :=
+  if isRow then .insertRowWith position values else .insertColumnWith position values
+
+/-- One insertion from a shared supply: the values are taken from the front, exactly as many as
+    the new row / column needs; with too few left the insertion fails (and nothing is left); an
+    invalid position fails before anything is taken. -/
+def sharedStep (rs : Rows α) (isRow : Bool) (position : Nat) (values : List α) :
+    Rows α × Bool × List α :=
+  let need := if isRow then ncols rs else nrows rs
+  let bound := if isRow then nrows rs else ncols rs
+  (next rs (sharedOp isRow position values), !pre rs (sharedOp isRow position values),
+    if position ≤ bound then values.drop need else values)
+
+def sharedInserts (rs : Rows α) : List (Bool × Nat) → List α → Rows α × List Bool × List α
+  | [], values => (rs, [], values)
+  | (isRow, position) :: steps, values =>
+    let r := sharedStep rs isRow position values
+    let rest := sharedInserts r.1 steps r.2.2
+    (rest.1, r.2.1 :: rest.2.1, rest.2.2)
 
 /-! ### constructors -/
 
